@@ -92,8 +92,8 @@ func TestVerifC03ServerAPI(t *testing.T) {
 		if !m.Only(idx) {
 			continue
 		}
-		srv := &Server{ng: newEngine(Config{}), router: router.NewRouter()}
 		useNF, useNA := rc.Intn(2) == 0, rc.Intn(2) == 0
+		viaNewServer := rc.Intn(2) == 0 // the public constructor applies its own default options around the caller's
 		var sawNF, sawNA bool
 		opts := []Option{WithNotFoundHandler(nil)}
 		if useNF {
@@ -108,8 +108,20 @@ func TestVerifC03ServerAPI(t *testing.T) {
 				w.WriteHeader(http.StatusMethodNotAllowed)
 			})))
 		}
-		for _, o := range opts {
-			o(srv)
+		var srv *Server
+		if viaNewServer {
+			var err error
+			srv, err = NewServer(Config{}, opts[1:]...)
+			if err != nil {
+				m.Inconclusive("case %d: NewServer: %v", idx, err)
+				return
+			}
+			logx.Disable()
+		} else {
+			srv = &Server{ng: newEngine(Config{}), router: router.NewRouter()}
+			for _, o := range opts {
+				o(srv)
+			}
 		}
 		var effs []eff
 		prefixes := []string{"/v1", "/v2", "/p/q", ""}
@@ -123,9 +135,15 @@ func TestVerifC03ServerAPI(t *testing.T) {
 			perm := rc.Perm(len(prefixes))
 			for g := 0; g < groups; g++ {
 				px := prefixes[perm[g]]
-				if px == "" {
+				switch {
+				case px == "":
 					srv.AddRoutes(b.routes)
-				} else {
+				case rc.Intn(3) == 0:
+					// the single-route entry point must honour the same route options
+					for _, rt := range b.routes {
+						srv.AddRoute(rt, WithPrefix(px))
+					}
+				default:
 					srv.AddRoutes(b.routes, WithPrefix(px))
 				}
 				shape = append(shape, fmt.Sprintf("slice%d@%q", s, px))
@@ -141,7 +159,7 @@ func TestVerifC03ServerAPI(t *testing.T) {
 				}
 			}
 		}
-		desc := fmt.Sprintf("case=%d;groups=%v notFound=%v notAllowed=%v routes=%d", idx, shape, useNF, useNA, len(effs))
+		desc := fmt.Sprintf("case=%d;groups=%v notFound=%v notAllowed=%v newServer=%v routes=%d", idx, shape, useNF, useNA, viaNewServer, len(effs))
 		if err := srv.ng.bindRoutes(srv.router); err != nil {
 			m.Violate("C03:server:bind-rejected-valid-table", desc, "bindRoutes: %v", err)
 			continue
